@@ -692,6 +692,12 @@ impl Sim {
         }
         m.options
             .push((wire::OPT_PARAM_LIST, vec![1, 3, 6, 15, 28, 51, 58, 59]));
+        // a client may say how long a lease it would like (RFC 2131 3.5): below, at and above
+        // the bounds the server keeps to whatever it is asked for
+        const WISHES: [u32; 11] = [0, 1, 60, 120, 299, 300, 301, 3600, 86400, 86401, u32::MAX];
+        if self.step_no % 3 == 1 {
+            m.options.push((wire::OPT_LEASE_TIME, WISHES[(self.step_no as usize / 3) % WISHES.len()].to_be_bytes().to_vec()));
+        }
         m
     }
 
